@@ -433,7 +433,7 @@ def viewsSideB (e : Expr) (exprsOut : List Expr) : Bool :=
   (views e).all (fun v => Dim.viewOKL v &&
     (idVout exprsOut).all (fun z => consistentB (Dim.leavesL v ++ Dim.leavesL z.1)))
 
-theorem forall₂_of_map_eq {α β : Type} (f : α → Option β) : ∀ (l1 : List α) (l2 : List β),
+theorem forall2_of_map_eq {α β : Type} (f : α → Option β) : ∀ (l1 : List α) (l2 : List β),
     l1.map f = l2.map some → List.Forall₂ (fun b a => f a = some b) l2 l1 := by
   intro l1
   induction l1 with
@@ -477,7 +477,7 @@ theorem denoteId_permute_input_concat_partial (e e' : Expr) (exprsOut : List Exp
   refine denoteIdFunG_congr_in (subst [⟨plan.shape, plan.cells⟩]) [e'] [e] exprsOut ?_
   simp only [idVin, List.zipIdx_cons, List.zipIdx_nil, List.flatMap_cons, List.flatMap_nil, List.append_nil]
   rw [List.forall₂_map_left_iff, List.forall₂_map_right_iff]
-  refine (forall₂_and_mem (forall₂_of_map_eq _ _ _ hviews)).imp ?_
+  refine (forall₂_and_mem (forall2_of_map_eq _ _ _ hviews)).imp ?_
   rintro v' v ⟨hv', hmem', hmem⟩ z hz
   have hsv : viewShape v = shapeOf e := views_viewShape e v hmem
   have hsv' : viewShape v' = shapeOf e' := views_viewShape e' v' hmem'
